@@ -1,7 +1,7 @@
 (* C10/Properties.v — streamed parsing ignores chunking; the callback gets every byte.
    Statements only; proofs in C09/Proofs.v and C10/Proofs.v.  [drive], [spec]: C09/Model.v. *)
 From Coq Require Import ZArith List Bool.
-From RM Require Import Base.Word C09.Model C09.Grammar C09.Driver C09.Proofs C09.ProofsBytes C10.Model C10.Proofs.
+From RM Require Import Base.Word C08.Model C11.Model C09.Model C09.Grammar C09.Driver C09.Proofs C09.ProofsBytes C10.Model C10.Proofs C10.ProofsCache.
 Import ListNotations.
 Open Scope Z_scope.
 
@@ -49,6 +49,35 @@ Theorem c10_any_two_schedules :
     r1 = r2.
 Proof. exact two_schedules. Qed.
 Print Assumptions c10_any_two_schedules.
+
+(* The same on the real symbol table (concrete recogniser + finish): under any schedule the
+   result and its table are those of the schedule-free specification. *)
+Theorem c10_table_chunk_independent :
+  forall (lines : list rle) (tail : Z),
+    short_lines cllen lines tail ->
+    forall sch, exists r s, drive_c lines tail sch = Ret (r, s) /\ r = spec_c lines tail /\
+                            table_of r = table_of (spec_c lines tail).
+Proof. exact table_chunk_independent. Qed.
+Print Assumptions c10_table_chunk_independent.
+
+(* The parser contract assumed by C16 (symbol cache): [parse_bytes] is the whole-input verdict
+   (table without url, url of the last INFO URL record).  Appending `INFO URL <u>` (after a '\n'
+   if the body lacks one: an accepted body never does) to an accepted body gives the same table
+   with url = u — also when the body already contains INFO URL records (the last one wins). *)
+Theorem c10_cached_form_parse :
+  forall (b u : list Z) (t : table) (x : option (list Z)),
+    url_ok u -> parse_bytes b = Some (t, x) -> parse_bytes (cached_form b u) = Some (t, Some u).
+Proof. exact cached_form_parse. Qed.
+Print Assumptions c10_cached_form_parse.
+
+Example c10_nonvacuous_cached :
+  let body := [77;79;68;85;76;69;32;97;32;98;32;99;32;100;10; 73;78;70;79;32;85;82;76;32;111;108;100;10;
+               70;85;78;67;32;49;48;32;52;32;48;32;102;10] in        (* MODULE a b c d / INFO URL old / FUNC 10 4 0 f *)
+  let u := [104;116;116;112;58;47;47;120] in                        (* http://x *)
+  (match parse_bytes body with Some (t, x) => (zlen (t_funcs t), x) | None => (-1, None) end,
+   match parse_bytes (cached_form body u) with Some (t, x) => (zlen (t_funcs t), x) | None => (-1, None) end)
+  = ((1, Some [111;108;100]), (1, Some u)).
+Proof. vm_compute. reflexivity. Qed.
 
 (* non-vacuity: a file with a FUNC group and a CFI group, read 1 byte / 7 bytes at a time and
    whole: short_lines holds and the three runs agree with spec (Ok, 1 file, 1 public) *)
